@@ -5,19 +5,31 @@
 package c09
 
 import (
+	"bytes"
 	"encoding/json"
 	"fmt"
+	"math"
+	"net/http"
+	"net/http/httptest"
 	"os"
 	"sort"
 	"testing"
 	"testing/synctest"
 	"time"
 
-	"github.com/atlassian/gostatsd"
-	"github.com/atlassian/gostatsd/pkg/statsd"
+	"github.com/sirupsen/logrus"
+	"google.golang.org/protobuf/proto"
 
+	"github.com/atlassian/gostatsd"
+	"github.com/atlassian/gostatsd/pb"
+	"github.com/atlassian/gostatsd/pkg/statsd"
+	"github.com/atlassian/gostatsd/pkg/web"
+
+	"verifharness/internal/fakes"
 	"verifharness/internal/vh"
 )
+
+var quiet = func() *logrus.Logger { l := logrus.New(); l.SetLevel(logrus.PanicLevel); return l }()
 
 type rep struct {
 	S     string `json:"s"`
@@ -29,6 +41,7 @@ type hcase struct {
 	Hist    []string       `json:"hist"`
 	Exp     map[string]int `json:"exp"`
 	Reports [][]rep        `json:"reports"`
+	Half    bool           `json:"half"` // datapoints are stamped half a unit before they are merged
 }
 
 func typeOf(s string) string {
@@ -81,9 +94,27 @@ func TestCases(t *testing.T) {
 					res.Fail("C04", "flush-panic:history", fmt.Sprintf("history %v expiry %v: panic %v", c.Hist, c.Exp, x), rec)
 				}
 			}()
+			histTimer := idx%3 == 1          // the timer series carries histogram buckets: it expires like any other timer
+			viaHTTP := idx%3 == 2 && !c.Half // datapoints arrive through the /v2/raw ingestion endpoint (which stamps them on receipt)
 			a := statsd.NewMetricAggregator([]float64{90, -50}, dur(c.Exp["counter"]), dur(c.Exp["gauge"]), dur(c.Exp["set"]), dur(c.Exp["timer"]), gostatsd.TimerSubtypes{}, 1000)
 			flush := 0
 			interval := 2 * time.Second
+			var srv http.Handler
+			if viaHTTP {
+				hs, err := web.NewHttpServer(quiet, &fakes.Handler{OnMap: func(mm *gostatsd.MetricMap) { a.ReceiveMap(mm) }}, "in", "127.0.0.1:0", false, false, true, false, nil, nil)
+				if err != nil {
+					t.Fatal(err)
+				}
+				srv = hs.Router
+				res.Hit("via-http-ingestion")
+			}
+			if histTimer {
+				res.Hit("histogram-timer")
+			}
+			if c.Half {
+				time.Sleep(500 * time.Millisecond) // every instant of this history lies half a unit after a whole second
+				res.Hit("half-unit-age")
+			}
 			for i, h := range c.Hist {
 				id := i + 1
 				switch h {
@@ -158,6 +189,12 @@ func TestCases(t *testing.T) {
 								for _, x := range w.Pend {
 									wv = append(wv, float64(x))
 								}
+								if histTimer { // no summary statistics for a timer with buckets: the +Inf bucket counts the values
+									if v.Histogram[gostatsd.HistogramThreshold(math.Inf(1))] != len(wv) || (fmt.Sprint(vals) != fmt.Sprint(wv) && !(len(vals) == 0 && len(wv) == 0)) {
+										problems = append(problems, fmt.Sprintf("value:timer|histogram timer %s values %v buckets %v want %v", n, vals, v.Histogram, wv))
+									}
+									return
+								}
 								if fmt.Sprint(vals) != fmt.Sprint(wv) && !(len(vals) == 0 && len(wv) == 0) || v.Count != len(wv) {
 									problems = append(problems, fmt.Sprintf("value:timer|timer %s values %v count %d want %v", n, vals, v.Count, wv))
 								}
@@ -197,10 +234,37 @@ func TestCases(t *testing.T) {
 						m.Type, m.StringValue = gostatsd.SET, fmt.Sprint("m", id)
 					default:
 						m.Type = gostatsd.TIMER
+						if histTimer {
+							m.Tags = append(m.Tags, "gsd_histogram:3_6")
+						}
 					}
-					mm := gostatsd.NewMetricMap(false)
-					mm.Receive(m)
-					a.ReceiveMap(mm)
+					if c.Half {
+						m.Timestamp -= gostatsd.Nanotime(500 * time.Millisecond)
+					}
+					if viaHTTP {
+						tk := gostatsd.FormatTagsKey(m.Source, m.Tags)
+						msg := &pb.RawMessageV2{}
+						switch m.Type {
+						case gostatsd.COUNTER:
+							msg.Counters = map[string]*pb.CounterTagV2{m.Name: {TagMap: map[string]*pb.RawCounterV2{tk: {Tags: m.Tags, Hostname: string(m.Source), Value: int64(m.Value)}}}}
+						case gostatsd.GAUGE:
+							msg.Gauges = map[string]*pb.GaugeTagV2{m.Name: {TagMap: map[string]*pb.RawGaugeV2{tk: {Tags: m.Tags, Hostname: string(m.Source), Value: m.Value}}}}
+						case gostatsd.SET:
+							msg.Sets = map[string]*pb.SetTagV2{m.Name: {TagMap: map[string]*pb.RawSetV2{tk: {Tags: m.Tags, Hostname: string(m.Source), Values: []string{m.StringValue}}}}}
+						default:
+							msg.Timers = map[string]*pb.TimerTagV2{m.Name: {TagMap: map[string]*pb.RawTimerV2{tk: {Tags: m.Tags, Hostname: string(m.Source), Values: []float64{m.Value}, SampleCount: 1}}}}
+						}
+						body, _ := proto.Marshal(msg)
+						rr := httptest.NewRecorder()
+						srv.ServeHTTP(rr, httptest.NewRequest("POST", "/v2/raw", bytes.NewReader(body)))
+						if rr.Code != 202 {
+							t.Fatalf("ingestion answered %d", rr.Code)
+						}
+					} else {
+						mm := gostatsd.NewMetricMap(false)
+						mm.Receive(m)
+						a.ReceiveMap(mm)
+					}
 				}
 			}
 			res.Eval(flush >= 2)
